@@ -13,7 +13,7 @@ export VERIF_REPO=$R
 cd $V
 for S in seeded/*/; do
   name=$(basename $S)
-  if [ -n "${SEED_FILTER:-}" ] && ! echo "$name" | grep -qE "$SEED_FILTER"; then continue; fi
+  if [ -n "${SEED_FILTER:-}" ] && ! echo "$name" | grep -qE -e "$SEED_FILTER"; then continue; fi
   ids=$(python3 -c "import json,os;f='$V/$S/meta.json';print(' '.join(json.load(open(f)).get('check_with',['$name'[:3]]) if os.path.exists(f) else ['$name'[:3]]))")
   old=$(python3 -c "import json,os;f='$V/$S/meta.json';m=json.load(open(f)) if os.path.exists(f) else {};print(m.get('applies_to_commit') or '')")
   if [ -n "$old" ]; then echo "$name APPLIES-ONLY-TO $old (not re-created against the current tree, see meta.json)"; continue; fi
